@@ -5,6 +5,8 @@ honesty of the inverse, source/target exchange, exact landmark return for the in
 """
 import numpy as np
 
+from vf.tx import amax as _amax
+
 from vf.core import Workload
 from vf import taps, gen, tx, align
 from vf.digest import digest
@@ -70,14 +72,14 @@ class PinvMonitor(taps.Monitor):
             e1 = tx.maxdiff(inv.apply(t0.apply(x)), x)
             e2 = tx.maxdiff(t0.apply(inv.apply(y)), y)
             ctx.err("homog_left", e1); ctx.err("homog_right", e2)
-            if e1 > 1e-8 * tx.BOX:
+            if not (e1 <= 1e-8 * tx.BOX):
                 ctx.fail("inverse_does_not_undo_from_the_left", cls=cls, err=e1)
-            if e2 > 1e-8 * tx.BOX:
+            if not (e2 <= 1e-8 * tx.BOX):
                 ctx.fail("inverse_does_not_undo_from_the_right", cls=cls, err=e2)
             if isinstance(t, Alignment):
                 prod = np.asarray(inv.h_matrix) @ np.asarray(t0.h_matrix)
                 prod = prod / prod[-1, -1]
-                if np.abs(prod - np.eye(d + 1)).max() > 1e-8:
+                if _amax(prod - np.eye(d + 1)) > 1e-8:
                     ctx.fail("alignment_inverse_matrix_is_not_the_exact_inverse", cls=cls)
         elif isinstance(t, AbstractPWA):
             if type(inv) is not type(t):
@@ -94,9 +96,9 @@ class PinvMonitor(taps.Monitor):
                     ctx.fail("inverse_rejects_points_of_its_domain", cls=cls, mech=type(e).__name__)
                     return
                 ctx.err("pwa_left", e1); ctx.err("pwa_right", e2)
-                if e1 > 1e-7 * tx.BOX:
+                if not (e1 <= 1e-7 * tx.BOX):
                     ctx.fail("inverse_does_not_undo_from_the_left", cls=cls, err=e1, target_cls=type(t.target).__name__)
-                if e2 > 1e-7 * tx.BOX:
+                if not (e2 <= 1e-7 * tx.BOX):
                     ctx.fail("inverse_does_not_undo_from_the_right", cls=cls, err=e2, target_cls=type(t.target).__name__)
         elif isinstance(t, mt.ThinPlateSplines):
             if type(inv) is not type(t):
@@ -110,9 +112,9 @@ class PinvMonitor(taps.Monitor):
                 return
             es = tx.maxdiff(inv.source.points, t0.target.points)
             et = tx.maxdiff(inv.target.points, t0.source.points)
-            if es > 0:
+            if not (es <= 0):
                 ctx.fail("inverse_source_is_not_the_target", cls=cls, err=es)
-            if et > 0:
+            if not (et <= 0):
                 ctx.fail("inverse_target_is_not_the_source", cls=cls, err=et)
             well_posed = True
             if isinstance(t, mt.ThinPlateSplines):
@@ -130,7 +132,7 @@ class PinvMonitor(taps.Monitor):
                 back = inv.apply(t0.target.points.copy())
                 e = tx.maxdiff(back, t0.source.points)
                 ctx.err("warp_landmark_return", e)
-                if e > 1e-6 * tx.BOX:
+                if not (e <= 1e-6 * tx.BOX):
                     ctx.fail("inverse_warp_does_not_return_landmarks", cls=cls, err=e,
                              kernel=type(getattr(t, "kernel", None)).__name__)
                 if isinstance(t, mt.ThinPlateSplines):
